@@ -72,6 +72,8 @@ type c15Machine struct {
 
 	// genesis round trips (restart of the module from its own export)
 	nReimport, nReimportMulti, nReimportZeroSupply, nReimportZeroBalance, nReimportMaxSupply, nReimportHanded int
+	nBurst, nReimportAfterBurst                                                                               int
+	quiet                                                                                                     bool // inside a burst
 	nReimportEmptyClass                                                                                       int
 	sinceReimport                                                                                             int // accepted messages since the last round trip (-1 = no round trip yet)
 	multiAtReimport                                                                                           bool
@@ -246,10 +248,17 @@ func (m *c15Machine) Next(t *rapid.T) c15Op {
 		if (m.holding() >= 2 && m.nReimportMulti == 0) || (zero && m.nReimportZeroSupply == 0) {
 			odds = 8
 		}
+		if m.nBurst > 0 && m.nReimportAfterBurst == 0 {
+			odds = 5
+		}
 		// (rapid draws small values far more often than large ones; the remainder of a large draw is close to uniform)
 		if rapid.IntRange(0, 1<<20).Draw(t, "reimport")%odds == odds-1 {
 			return c15Op{Kind: "reimport", Denom: -1, MT: -1}
 		}
+	}
+	if len(m.denoms) > 0 && m.nBurst == 0 && rapid.IntRange(0, 1<<20).Draw(t, "burst")%150 == 149 {
+		return c15Op{Kind: "burst", Denom: rapid.IntRange(0, len(m.denoms)-1).Draw(t, "burstdenom"), MT: -1, To: rapid.IntRange(-1, len(m.c.E.Users)-1).Draw(t, "burstto"),
+			Amount: uint64(rapid.IntRange(101, 125).Draw(t, "burstn"))}
 	}
 	k := rapid.IntRange(0, 99).Draw(t, "kind")
 	// the ids generated right after a round trip tell whether the sequences survived it
@@ -359,6 +368,25 @@ func (m *c15Machine) Next(t *rapid.T) c15Op {
 func (m *c15Machine) Apply(op c15Op) error {
 	if op.Kind == "reimport" {
 		return m.applyReimport()
+	}
+	if op.Kind == "burst" {
+		// more new tokens in one class than a default query page holds (100); the class owner mints them one by one
+		// through the ordinary rules, the listing, supply and invariant clauses are evaluated once at the end
+		d, _ := m.denomAt(op.Denom)
+		if d == nil || op.Amount < 1 || op.Amount > 400 {
+			return fmt.Errorf("bad replay op %+v", op)
+		}
+		m.quiet = true
+		for i := uint64(0); i < op.Amount; i++ {
+			one := c15Op{Kind: "mint", Who: m.userOf(d.owner), To: op.To, Denom: op.Denom, MT: -1, Amount: 1 + i%7, Name: "bulk"}
+			if err := m.Apply(one); err != nil {
+				m.quiet = false
+				return err
+			}
+		}
+		m.quiet = false
+		m.nBurst++
+		return m.check()
 	}
 	nu := len(m.c.E.Users)
 	if op.Who < 0 || op.Who >= nu || op.To < -1 || op.To >= nu {
@@ -634,6 +662,9 @@ func (m *c15Machine) Apply(op c15Op) error {
 	if m.sinceReimport >= 0 {
 		m.sinceReimport++
 	}
+	if m.quiet {
+		return nil
+	}
 	return m.check()
 }
 
@@ -685,6 +716,11 @@ func (m *c15Machine) applyReimport() error {
 		return 0
 	}
 	m.nReimportMulti += b2i(multi)
+	for _, d := range m.denoms {
+		if len(d.mts) > 100 {
+			m.nReimportAfterBurst++
+		}
+	}
 	m.nReimportZeroSupply += b2i(zeroSupply)
 	m.nReimportZeroBalance += b2i(zeroBal)
 	m.nReimportMaxSupply += b2i(maxSupply)
@@ -939,6 +975,8 @@ func (m *c15Machine) Classify() (bool, []string) {
 	add(m.nReimport > 0, "reimport")
 	add(m.nReimport >= 2, "reimport-twice")
 	add(m.nReimportMulti > 0, "reimport-with-2+-classes-holding-tokens")
+	add(m.nBurst > 0, "class-with->100-tokens")
+	add(m.nReimportAfterBurst > 0, "reimport-with-a-class-of->100-tokens")
 	add(m.nReimportEmptyClass > 0, "reimport-with-class-without-tokens")
 	add(m.nReimportZeroSupply > 0, "reimport-with-token-burned-to-zero")
 	add(m.nReimportZeroBalance > 0, "reimport-with-emptied-holder")
